@@ -350,10 +350,10 @@ FAMILIES['Surface-uvl'] = surface({'quote': B, 'parens': B, 'merge': B, 'comment
                                   ['bracket', 'operator', 'section', 'indent', 'badchar'], 12)   # pool size 12
 
 FAMILIES['Surface-fide'] = surface({'order': B, 'optattr': ['implicit', 'explicit'], 'nary': B, 'extras': B, 'pretty': B, 'noctc': B, 'groupmand': B},
-                                   ['unknownrule'], 12)
+                                   ['unknownrule'], 14)
 FAMILIES['Surface-xml'] = surface({'order': B, 'pretty': B, 'relnames': B, 'cardfirst': B, 'setsingle': ['0']}, ['duplicate'], 10)
 FAMILIES['Surface-afm'] = surface({'parens': B, 'order': B}, ['relational'], 12)
-FAMILIES['Surface-glencoe'] = surface({'ids': B, 'order': B, 'extras': B, 'minmax': B, 'pretty': B, 'nary': B}, ['unknowntype'], 12)
+FAMILIES['Surface-glencoe'] = surface({'ids': B, 'order': B, 'extras': B, 'minmax': B, 'pretty': B, 'nary': B}, ['unknowntype'], 14)
 FAMILIES.update({
     'Ref-xml': {t: dict(consts=dict(N=5, MaxKids=3, MinHi=0, Axes={'ctc'}, MaxCtc=2, CtcDepth=1, CtcBinOps={'REQUIRES', 'EXCLUDES'},
                                     CtcMinFeatures=4, MaxLevel=7),
@@ -365,13 +365,14 @@ FAMILIES.update({
     'Ref-glencoe-Ctc': {t: dict(consts=dict(N=5, MaxKids=3, MinHi=0, Axes={'ctc'}, MaxCtc=2, CtcDepth=1, CtcBinOps=LOGIC_BIN,
                                             CtcMinFeatures=4, Fmt='glencoe', MaxLevel=8),
                                 invariants=tlc.GEN_INVARIANTS, simulate=dict(num=300, depth=8)) for t in ('quick', 'thorough')},
-    # one long chain over seven names (walks), inside the format's fragment
-    'Ref-fide-Chain': {t: dict(consts=dict(N=7, MaxKids=3, MinHi=1, Axes={'ctc'}, MaxCtc=1, CtcDepth=0, CtcBinOps=set(), CtcMinFeatures=7,
-                                           CtcChains={(o, n) for o in ('AND', 'OR') for n in (6, 7, 10, 12)}, Fmt='fide'),
-                               invariants=tlc.GEN_INVARIANTS, simulate=dict(num=150, depth=12)) for t in ('quick', 'thorough')},
-    'Ref-glencoe-Chain': {t: dict(consts=dict(N=7, MaxKids=3, MinHi=1, Axes={'ctc'}, MaxCtc=1, CtcDepth=0, CtcBinOps=set(), CtcMinFeatures=7,
-                                              CtcChains={(o, n) for o in ('AND', 'OR', 'XOR') for n in (6, 7, 10, 12)}, Fmt='glencoe'),
-                                  invariants=tlc.GEN_INVARIANTS, simulate=dict(num=150, depth=12)) for t in ('quick', 'thorough')},
+    # one long chain of an associative operator over seven names (the tree is a path of mandatory / optional features)
+    'Ref-fide-Chain': {t: dict(consts=dict(N=7, MaxKids=1, MinHi=1, Shape='chain', Axes={'ctc'}, MaxCtc=1, CtcDepth=0, CtcBinOps=set(),
+                                           CtcMinFeatures=7, CtcChains={(o, n) for o in ('AND', 'OR') for n in (6, 7, 10, 12)}, Fmt='fide'),
+                               invariants=tlc.GEN_INVARIANTS, cap=300) for t in ('quick', 'thorough')},
+    'Ref-glencoe-Chain': {t: dict(consts=dict(N=7, MaxKids=1, MinHi=1, Shape='chain', Axes={'ctc'}, MaxCtc=1, CtcDepth=0, CtcBinOps=set(),
+                                              CtcMinFeatures=7, CtcChains={(o, n) for o in ('AND', 'OR', 'XOR') for n in (6, 7, 10, 12)},
+                                              Fmt='glencoe'),
+                                  invariants=tlc.GEN_INVARIANTS, cap=300) for t in ('quick', 'thorough')},
     'Ref-afm-Mix': {t: dict(consts=dict(N=5, MaxKids=3, MinHi=0, Axes={'ctc', 'attr'}, AttrNames=['a1'], AttrVals=ATTR_VALS_AFM, MaxCtc=2,
                                         CtcDepth=1, CtcBinOps=ALL_OPS_NOT_XOR, CtcMinFeatures=3, Fmt='afm', MaxLevel=9),
                             invariants=tlc.GEN_INVARIANTS, simulate=dict(num=300, depth=9)) for t in ('quick', 'thorough')},
